@@ -116,6 +116,9 @@ pub enum LexerErrorReason {
     /// The suffix for a floating point token is not a valid suffix
     FloatInvalidSuffix,
 
+    /// An integer literal does not fit in 64 bits
+    IntegerLiteralTooLarge,
+
     /// A string literal wraps the end of a line (but does end before end of stream)
     StringWrapsLine,
 
@@ -149,6 +152,7 @@ impl CompileError for LexerError {
             LexerErrorReason::OtherTokenBytes => "internal lexer error",
             LexerErrorReason::EndOfStream => "unexpected end of stream",
             LexerErrorReason::FloatInvalidSuffix => "unexpected end of stream",
+            LexerErrorReason::IntegerLiteralTooLarge => "integer literal is too large",
             LexerErrorReason::StringWrapsLine => "string literal not terminated at end of line",
             LexerErrorReason::StringWrapsFile => "string literal never terminates",
             LexerErrorReason::StringContainsInvalidCharacters => {
@@ -260,11 +264,19 @@ fn digit(input: &[u8]) -> LexResult<'_, u64> {
 
 /// Parse multiple decimal digits into a 64-bit value
 fn digits(input: &[u8]) -> LexResult<'_, u64> {
+    let start_input = input;
     let (mut input, mut value) = digit(input)?;
     while let Ok((next_input, d)) = digit(input) {
         input = next_input;
-        value *= 10;
-        value += d;
+        value = match value.checked_mul(10).and_then(|v| v.checked_add(d)) {
+            Some(value) => value,
+            None => {
+                return Err(LexErrorContext(
+                    start_input,
+                    LexerErrorReason::IntegerLiteralTooLarge,
+                ));
+            }
+        };
     }
     Ok((input, value))
 }
@@ -319,11 +331,19 @@ fn digit_hex(input: &[u8]) -> LexResult<'_, u64> {
 
 /// Parse multiple hexadecimal digits into a 64-bit value
 fn digits_hex(input: &[u8]) -> LexResult<'_, u64> {
+    let start_input = input;
     let (mut input, mut value) = digit_hex(input)?;
     while let Ok((next_input, d)) = digit_hex(input) {
         input = next_input;
-        value *= 16;
-        value += d;
+        value = match value.checked_mul(16).and_then(|v| v.checked_add(d)) {
+            Some(value) => value,
+            None => {
+                return Err(LexErrorContext(
+                    start_input,
+                    LexerErrorReason::IntegerLiteralTooLarge,
+                ));
+            }
+        };
     }
     Ok((input, value))
 }
@@ -364,11 +384,19 @@ fn digit_octal(input: &[u8]) -> LexResult<'_, u64> {
 
 /// Parse multiple octal digits into a 64-bit value
 fn digits_octal(input: &[u8]) -> LexResult<'_, u64> {
+    let start_input = input;
     let (mut input, mut value) = digit_octal(input)?;
     while let Ok((next_input, d)) = digit_octal(input) {
         input = next_input;
-        value *= 8;
-        value += d;
+        value = match value.checked_mul(8).and_then(|v| v.checked_add(d)) {
+            Some(value) => value,
+            None => {
+                return Err(LexErrorContext(
+                    start_input,
+                    LexerErrorReason::IntegerLiteralTooLarge,
+                ));
+            }
+        };
     }
     Ok((input, value))
 }
@@ -398,42 +426,52 @@ fn int_type(input: &[u8]) -> LexResult<'_, IntType> {
     }
 }
 
-/// Parse a decimal literal
-fn literal_decimal_int(input: &[u8]) -> LexResult<'_, Token> {
-    let (input, value) = digits(input)?;
-    let (input, int_type_opt) = opt(int_type)(input)?;
-    let token = match int_type_opt {
+/// Build an integer literal token from a value and the optional suffix
+fn make_int_token<'b>(
+    base_input: &'b [u8],
+    value: u64,
+    int_type_opt: Option<IntType>,
+) -> Result<Token, LexErrorContext<'b>> {
+    Ok(match int_type_opt {
         None => Token::LiteralInt(value),
         Some(IntType::Unsigned32) => Token::LiteralIntUnsigned32(value),
         Some(IntType::Unsigned64) => Token::LiteralIntUnsigned64(value),
-        Some(IntType::Signed64) => Token::LiteralIntSigned64(value as i64),
-    };
+        Some(IntType::Signed64) => match i64::try_from(value) {
+            Ok(value) => Token::LiteralIntSigned64(value),
+            Err(_) => {
+                return Err(LexErrorContext(
+                    base_input,
+                    LexerErrorReason::IntegerLiteralTooLarge,
+                ));
+            }
+        },
+    })
+}
+
+/// Parse a decimal literal
+fn literal_decimal_int(input: &[u8]) -> LexResult<'_, Token> {
+    let base_input = input;
+    let (input, value) = digits(input)?;
+    let (input, int_type_opt) = opt(int_type)(input)?;
+    let token = make_int_token(base_input, value, int_type_opt)?;
     Ok((input, token))
 }
 
 /// Parse a hexadecimal literal
 fn literal_hex_int(input: &[u8]) -> LexResult<'_, Token> {
+    let base_input = input;
     let (input, value) = digits_hex(input)?;
     let (input, int_type_opt) = opt(int_type)(input)?;
-    let token = match int_type_opt {
-        None => Token::LiteralInt(value),
-        Some(IntType::Unsigned32) => Token::LiteralIntUnsigned32(value),
-        Some(IntType::Unsigned64) => Token::LiteralIntUnsigned64(value),
-        Some(IntType::Signed64) => Token::LiteralIntSigned64(value as i64),
-    };
+    let token = make_int_token(base_input, value, int_type_opt)?;
     Ok((input, token))
 }
 
 /// Parse an octal literal
 fn literal_octal_int(input: &[u8]) -> LexResult<'_, Token> {
+    let base_input = input;
     let (input, value) = digits_octal(input)?;
     let (input, int_type_opt) = opt(int_type)(input)?;
-    let token = match int_type_opt {
-        None => Token::LiteralInt(value),
-        Some(IntType::Unsigned32) => Token::LiteralIntUnsigned32(value),
-        Some(IntType::Unsigned64) => Token::LiteralIntUnsigned64(value),
-        Some(IntType::Signed64) => Token::LiteralIntSigned64(value as i64),
-    };
+    let token = make_int_token(base_input, value, int_type_opt)?;
     Ok((input, token))
 }
 
